@@ -30,7 +30,10 @@ CLAIM = dict(
           "draws and by the Lean graph-search distance / walk / vector / hexagon predicates run on the implementation's "
           "outputs."),
     design="3/C11",
-    note=("FINDING torus-tiebreak-float-rounding: the key `distance + random.random()` of shortest_torus_path is a float "
+    note=("Results are also required to be independent of what callers did earlier: generator histories (abandoned / "
+          "interleaved concentric_hexagons generators) and call histories in which the caller mutates every returned "
+          "list/set are judged by the same model and Lean oracles (validated, not proved: the model is a pure function). "
+          "FINDING torus-tiebreak-float-rounding: the key `distance + random.random()` of shortest_torus_path is a float "
           "sum; when random.random() returns 1-2^-53 for a minimal approach and 0.0 for an earlier approach one hop "
           "longer, both keys are equal and the longer vector is returned (probability about 2^-106 per call; concrete "
           "replay in corpus/C11; repair fixes/torus-tiebreak-float-rounding.diff compares (distance, random()) tuples). "
@@ -58,6 +61,14 @@ RULE = ("torus cases: for chosen (w, h, source chip) every or many destination c
         "partially consumed (cut at 0, 1, ring boundaries +-1, mid-ring, side corners, all-but-one) then closed, "
         "dropped or left alive, every fully consumed result compared with the (pure) model and the Lean hexagon "
         "oracle, every prefix with the model's prefix; non-trivial = at least one abandoned generator or interleaving; "
+        "call histories: 3-10 calls by one caller on one small machine (1x1, 1xN, Nx1, 2x2 ... 8x8) over every "
+        "function of the property (torus and mesh length/vector/walk, longest_dimension_first, minimise_xyz/to_xyz, "
+        "links_between, concentric_hexagons full and abandoned), 45% degenerate (source == destination, null and "
+        "(c,c,c) vectors, radius 0, a == b), 25% repeats of an earlier call, from fresh module state; after every "
+        "call the caller mutates the returned object if it is a list/set/dict (append, extend, extend with itself, "
+        "insert, pop, clear, reverse, item assignment, accumulate later legs into the first list); every result is "
+        "snapshotted at return, compared with the pure model and judged by the same Lean oracles; the replay is the "
+        "whole history including the mutations; non-trivial = at least one mutation; "
         "distinct = distinct canonical JSON")
 
 
@@ -119,6 +130,17 @@ def call(f):
         return {"err": "Other " + type(e).__name__}
 
 
+_HOOK = [None]     # caller-side mutation applied to every object a rig function returns (call histories)
+
+
+def snap(conv, x):
+    """canonical snapshot of a returned object, taken BEFORE the caller (the hook) does anything to it"""
+    s = conv(x)
+    if _HOOK[0] is not None:
+        _HOOK[0](x)
+    return s
+
+
 def walk_json(out):
     return [[int(l), [int(p[0]), int(p[1])]] for l, p in out]
 
@@ -140,43 +162,43 @@ def run_impl(c):
     o = {}
     if k in ("torus", "torus_real"):
         s, d, w, h = tuple(c["s"]), tuple(c["d"]), c["w"], c["h"]
-        o["len"] = call(lambda: int(geometry.shortest_torus_path_length(s, d, w, h)))
+        o["len"] = call(lambda: snap(int, geometry.shortest_torus_path_length(s, d, w, h)))
         rec = Rec(c["seed"], c["den"]) if k == "torus" else _random.Random(c["seed"])
         with patched(geometry, rec):
-            o["vec"] = call(lambda: ints(geometry.shortest_torus_path(s, d, w, h)))
+            o["vec"] = call(lambda: snap(ints, geometry.shortest_torus_path(s, d, w, h)))
         if k == "torus":
             o["vec_ks"], o["vec_ts"] = rec.ks, rec.ts
         if "ok" in o["vec"] and w > 0 and h > 0:
             start = ((s[0] - s[2]) % w, (s[1] - s[2]) % h)
             rec2 = Rec(c["seed"] + 1, c["den"]) if k == "torus" else _random.Random(c["seed"] + 1)
             with patched(rutils, rec2):
-                o["walk"] = call(lambda: walk_json(rutils.longest_dimension_first(tuple(o["vec"]["ok"]), start, w, h)))
+                o["walk"] = call(lambda: snap(walk_json, rutils.longest_dimension_first(tuple(o["vec"]["ok"]), start, w, h)))
             if k == "torus":
                 o["walk_ks"] = rec2.ks
     elif k == "torus_float":
         s, d, w, h = tuple(c["s"]), tuple(c["d"]), c["w"], c["h"]
-        o["len"] = call(lambda: int(geometry.shortest_torus_path_length(s, d, w, h)))
+        o["len"] = call(lambda: snap(int, geometry.shortest_torus_path_length(s, d, w, h)))
         with patched(geometry, Seq([FLOAT_EDGE[i] for i in c["rs"]], c["seed"])):
-            o["vec"] = call(lambda: ints(geometry.shortest_torus_path(s, d, w, h)))
+            o["vec"] = call(lambda: snap(ints, geometry.shortest_torus_path(s, d, w, h)))
     elif k == "mesh":
         s, d = tuple(c["s"]), tuple(c["d"])
-        o["len"] = call(lambda: int(geometry.shortest_mesh_path_length(s, d)))
-        o["vec"] = call(lambda: ints(geometry.shortest_mesh_path(s, d)))
+        o["len"] = call(lambda: snap(int, geometry.shortest_mesh_path_length(s, d)))
+        o["vec"] = call(lambda: snap(ints, geometry.shortest_mesh_path(s, d)))
         if "ok" in o["vec"]:
             start = (s[0] - s[2], s[1] - s[2])
             rec2 = Rec(c["seed"], c["den"])
             with patched(rutils, rec2):
-                o["walk"] = call(lambda: walk_json(rutils.longest_dimension_first(tuple(o["vec"]["ok"]), start)))
+                o["walk"] = call(lambda: snap(walk_json, rutils.longest_dimension_first(tuple(o["vec"]["ok"]), start)))
             o["walk_ks"] = rec2.ks
     elif k == "ldf":
         rec = Rec(c["seed"], c["den"])
         with patched(rutils, rec):
-            o["walk"] = call(lambda: walk_json(rutils.longest_dimension_first(
+            o["walk"] = call(lambda: snap(walk_json, rutils.longest_dimension_first(
                 tuple(c["v"]), tuple(c["start"]), c["w"], c["h"])))
         o["walk_ks"] = rec.ks
     elif k == "minimise":
-        o["min"] = call(lambda: ints(geometry.minimise_xyz(tuple(c["v"]))))
-        o["xyz"] = call(lambda: ints(geometry.to_xyz((c["v"][0], c["v"][1]))))
+        o["min"] = call(lambda: snap(ints, geometry.minimise_xyz(tuple(c["v"]))))
+        o["xyz"] = call(lambda: snap(ints, geometry.to_xyz((c["v"][0], c["v"][1]))))
     elif k == "links":
         L = rlinks.Links
         o["all"] = [int(l) for l in L]
@@ -203,15 +225,15 @@ def run_impl(c):
         L = rlinks.Links
         m = Machine(c["w"], c["h"], dead_chips=set(tuple(p) for p in c["dead_chips"]),
                     dead_links=set((x, y, L(l)) for x, y, l in c["dead_links"]))
-        o["lb"] = call(lambda: sorted(int(l) for l in rutils.links_between(tuple(c["a"]), tuple(c["b"]), m)))
+        o["lb"] = call(lambda: snap(lambda r: sorted(int(l) for l in r), rutils.links_between(tuple(c["a"]), tuple(c["b"]), m)))
     elif k == "hex_history":
-        o["hist"] = call(lambda: run_hex_history(c["ops"]))
+        o["hist"] = call(lambda: run_hex_history(c["ops"], c.get("fresh", True)))
     elif k == "hexagons":
         o["hex"] = call(lambda: [ints(p) for p in geometry.concentric_hexagons(c["r"], tuple(c["start"]))])
     return o
 
 
-def run_hex_history(ops):
+def run_hex_history(ops, fresh=True):
     """A history of generator operations on rig.geometry.concentric_hexagons, starting from freshly
     initialised module-level state (the module is re-executed before and after, so that the case
     behaves as in a fresh interpreter and leaves nothing behind for later cases).
@@ -219,7 +241,8 @@ def run_hex_history(ops):
     Returns {id: {"r", "start", "out": [...], "done": bool}}."""
     import importlib
     from rig import geometry
-    importlib.reload(geometry)
+    if fresh:
+        importlib.reload(geometry)
     gens, res = {}, {}
     try:
         for op in ops:
@@ -247,8 +270,84 @@ def run_hex_history(ops):
                 gens.pop(g, None)      # CPython finalises (closes) the generator at once
     finally:
         gens.clear()
-        importlib.reload(geometry)
+        if fresh:
+            importlib.reload(geometry)
     return res
+
+
+MUTATIONS = ["none", "append", "extend", "extend_self", "insert", "pop", "clear", "reverse", "accumulate", "setitem"]
+
+
+def make_mutator(how, state):
+    """what a caller may legitimately do to an object a function handed back to it"""
+    from rig import links as rlinks
+    junk = (rlinks.Links.east, (7, 7))
+
+    def mut(x):
+        if isinstance(x, list):
+            if how == "append":
+                x.append(junk)
+            elif how == "extend":
+                x.extend(state.get("prev") or [junk, junk])
+            elif how == "extend_self":
+                x.extend(list(x) or [junk])
+            elif how == "insert":
+                x.insert(0, junk)
+            elif how == "pop":
+                if x:
+                    x.pop()
+            elif how == "clear":
+                del x[:]
+            elif how == "reverse":
+                x.reverse()
+            elif how == "setitem":
+                if x:
+                    x[0] = junk
+            elif how == "accumulate":
+                # a multi-leg route: the first leg's list collects the hops of the later legs
+                if "acc" in state:
+                    state["acc"].extend(x)
+                else:
+                    state["acc"] = x
+            state["prev"] = list(x)
+        elif isinstance(x, set):
+            if how in ("append", "extend", "insert", "accumulate", "extend_self", "setitem"):
+                x.add(rlinks.Links.east)
+                x.add(rlinks.Links.south_west)
+            elif how in ("clear", "reverse"):
+                x.clear()
+            elif how == "pop":
+                if x:
+                    x.pop()
+        elif isinstance(x, dict):
+            if how in ("clear", "pop"):
+                x.clear()
+            elif how != "none":
+                x["junk"] = junk
+    return mut
+
+
+def run_call_history(calls):
+    """A history of calls by one caller: after each call the caller mutates what it got back (when it
+    is mutable) and carries on.  Module-level state of the two modules is fresh at the start (as in a new
+    interpreter) and reset afterwards.  Returns the list of observations, one per call; every
+    observation is a snapshot taken at the moment the function returned."""
+    import importlib
+    from rig import geometry
+    from rig.place_and_route.route import utils as rutils
+    importlib.reload(geometry)
+    importlib.reload(rutils)
+    state, obs = {}, []
+    try:
+        for sub in calls:
+            _HOOK[0] = make_mutator(sub.get("mut", "none"), state)
+            obs.append(run_impl(sub))
+    finally:
+        _HOOK[0] = None
+        state.clear()
+        importlib.reload(geometry)
+        importlib.reload(rutils)
+    return obs
 
 
 # --------------------------------------------------------------------------
@@ -268,12 +367,40 @@ def eval_cases(ctx, cases):
         reqs.append(req)
         handlers.append(fn)
 
+    def count(cd, nontriv):
+        if "at" not in cd:
+            ctx.case(cd, nontriv)
+
+    def V(key, what, cd):
+        """a concrete failure; inside a call history the replay is the whole history and the key says so"""
+        if cd.get("kind") == "call_history":
+            i = cd["at"]
+            what = ("call #%d of a call history (fresh module state, the caller mutates returned lists/sets "
+                    "between calls: %s): %s" % (i, ", ".join("%s[%s]" % (x["kind"], x.get("mut", "none"))
+                                                             for x in cd["calls"][:i + 1]), what))
+            if i > 0:
+                key += "-in-call-history"
+        ctx.violation(key, what, cd)
+
+    def work(cases):
+        for c in cases:
+            if c["kind"] == "call_history":
+                obs = run_call_history(c["calls"])
+                for i, (sub, o) in enumerate(zip(c["calls"], obs)):
+                    yield sub, o, dict(c, at=i)
+                n_mut = sum(1 for x in c["calls"] if x.get("mut", "none") != "none")
+                ctx.tag("callhist_len_%s" % ("3-5" if len(c["calls"]) <= 5 else "6+"))
+                ctx.case(dict(c), n_mut >= 1)
+            else:
+                yield c, run_impl(c), dict(c)
+
     groups = {}     # (w, h, start) -> list of (target, case, reported length)
-    for c in cases:
+    for c, o, c_desc in work(cases):
         k = c["kind"]
-        o = run_impl(c)
-        c_desc = dict(c)
         ctx.traces += 1
+        in_hist = "at" in c_desc
+        if in_hist:
+            ctx.tag("callhist_%s_%s" % (k, c.get("mut", "none")))
 
         def cmp(name, impl, c=c_desc):
             def fn(model):
@@ -284,7 +411,7 @@ def eval_cases(ctx, cases):
         def spec_true(key, what, c=c_desc):
             def fn(r):
                 if r is not True:
-                    ctx.violation(key, what, c)
+                    V(key, what, c)
             return fn
 
         nontriv = False
@@ -309,15 +436,15 @@ def eval_cases(ctx, cases):
                 ask(L("mesh_path", s=s, d=d), cmp("mesh_path", o["vec"].get("ok")))
             if not valid:
                 ctx.tag("torus_malformed_%s" % ("zero" if (w == 0 or h == 0) else "negative"))
-                ctx.case(c_desc, False)
+                count(c_desc, False)
                 continue
             ctx.tag("%s_w%s_h%s" % (k, "1" if w == 1 else "2" if w == 2 else "n" if w else "-",
                                      "1" if h == 1 else "2" if h == 2 else "n" if h else "-"))
             bad = [n for n in ("len", "vec", "walk") if "err" in o.get(n, {"err": "missing"})]
             if bad:
-                ctx.violation("exception-on-valid-input", "%s raised on a valid input: %r" % (
+                V("exception-on-valid-input", "%s raised on a valid input: %r" % (
                     bad, {n: o.get(n) for n in bad}), c_desc)
-                ctx.case(c_desc, False)
+                count(c_desc, False)
                 continue
             n, v, walk = o["len"]["ok"], o["vec"]["ok"], o["walk"]["ok"]
             if torus:
@@ -348,7 +475,7 @@ def eval_cases(ctx, cases):
         elif k == "torus_float":
             ctx.tag("torus_float_edge")
             if "err" in o["len"] or "err" in o["vec"]:
-                ctx.violation("exception-on-valid-input", "raised on a valid input: %r %r" % (o["len"], o["vec"]), c_desc)
+                V("exception-on-valid-input", "raised on a valid input: %r %r" % (o["len"], o["vec"]), c_desc)
             else:
                 ask(L("spec_vector", s=c["s"], d=c["d"], v=o["vec"]["ok"], w=c["w"], h=c["h"], n=o["len"]["ok"]),
                     spec_true("torus-tiebreak-float-rounding",
@@ -363,7 +490,7 @@ def eval_cases(ctx, cases):
             ask(L("ldf", v=v, start=start, w=w, h=h, den=c["den"], ks=(o["walk_ks"] + [0, 0, 0])[:3]),
                 cmp("ldf", o["walk"]))
             if "err" in o["walk"]:
-                ctx.violation("exception-on-valid-input", "longest_dimension_first raised %r" % (o["walk"],), c_desc)
+                V("exception-on-valid-input", "longest_dimension_first raised %r" % (o["walk"],), c_desc)
             else:
                 ask(L("spec_ldf", v=v, start=start, w=w, h=h, path=o["walk"]["ok"]),
                     spec_true("ldf-walk-wrong", "longest_dimension_first(%r) from %r (w=%r h=%r) is not a correctly "
@@ -388,12 +515,12 @@ def eval_cases(ctx, cases):
 
                 def chk(r, hops=hops, what=what, c_desc=c_desc):
                     if r != hops:
-                        ctx.violation("minimise-not-minimal", what, c_desc)
+                        V("minimise-not-minimal", what, c_desc)
                 ask(L("spec_hexlen", x=disp[0], y=disp[1]), chk)
                 ask(L("spec_vector", s=[0, 0, 0], d=c["v"], v=m, w=None, h=None, n=sum(abs(a) for a in m)),
                     spec_true("minimise-moves", "minimise_xyz(%r) = %r is a different displacement" % (c["v"], m)))
             else:
-                ctx.violation("exception-on-valid-input", "minimise_xyz raised %r" % (o["min"],), c_desc)
+                V("exception-on-valid-input", "minimise_xyz raised %r" % (o["min"],), c_desc)
             nontriv = min(c["v"]) != max(c["v"])
         elif k == "links":
             ask(L("all_links"), cmp("all_links", o["all"]))
@@ -411,20 +538,20 @@ def eval_cases(ctx, cases):
                         fv = [e for e in o["from_vector"] if e[0] == r[0] and e[1] == r[1]]
                         ok = ok and fv and fv[0][2].get("ok") == l
                     if not ok:
-                        ctx.violation("link-tables-inconsistent",
+                        V("link-tables-inconsistent",
                                       "link %d: to_vector=%r opposite=%r, hexagonal neighbourhood says vector %r" % (
                                           l, tv, op, r), c_desc)
                 ask(L("spec_vec", l=l), chk)
             for x, y, r in o["from_vector"]:
                 ask(L("from_vector", x=x, y=y), cmp("from_vector", r))
             if sorted(o["all"]) != list(range(6)):
-                ctx.violation("link-tables-inconsistent", "Links has members %r" % (o["all"],), c_desc)
+                V("link-tables-inconsistent", "Links has members %r" % (o["all"],), c_desc)
             nontriv = True
         elif k == "links_wrap":
             w, h = c["w"], c["h"]
             for x, y, l, r in o["wrap"]:
                 if r.get("ok") != l:
-                    ctx.violation("from-vector-wrap", "on a %dx%d torus chip (%d,%d) link %d: from_vector of the "
+                    V("from-vector-wrap", "on a %dx%d torus chip (%d,%d) link %d: from_vector of the "
                                   "coordinate difference to the neighbour gives %r" % (w, h, x, y, l, r), c_desc)
                     break
             nontriv = True
@@ -437,18 +564,18 @@ def eval_cases(ctx, cases):
                     ctx.mismatch("c11.links_between", "impl=%r model=%r" % (impl, model), c_desc)
             ask(L("links_between", **req), cmp_lb)
             if "err" in o["lb"]:
-                ctx.violation("exception-on-valid-input", "links_between raised %r" % (o["lb"],), c_desc)
+                V("exception-on-valid-input", "links_between raised %r" % (o["lb"],), c_desc)
             else:
                 def chk(r, got=o["lb"]["ok"], c_desc=c_desc):
                     if sorted(r) != got:
-                        ctx.violation("links-between-wrong", "links_between gives %r, the working links that lead "
+                        V("links-between-wrong", "links_between gives %r, the working links that lead "
                                       "from a to b are %r" % (got, sorted(r)), c_desc)
                 ask(L("spec_links_between", **req), chk)
                 nontriv = bool(o["lb"]["ok"])
                 ctx.tag("lb_%d" % len(o["lb"]["ok"]))
         elif k == "hex_history":
             if "err" in o["hist"]:
-                ctx.violation("exception-on-valid-input", "concentric_hexagons raised %r during %r" % (
+                V("exception-on-valid-input", "concentric_hexagons raised %r during %r" % (
                     o["hist"], c["ops"]), c_desc)
             else:
                 order = [str(op[1]) for op in c["ops"] if op[0] == "new"]
@@ -480,14 +607,14 @@ def eval_cases(ctx, cases):
         elif k == "hexagons":
             ask(L("hexagons", r=c["r"], start=c["start"]), cmp("hexagons", o["hex"].get("ok")))
             if "err" in o["hex"]:
-                ctx.violation("exception-on-valid-input", "concentric_hexagons raised %r" % (o["hex"],), c_desc)
+                V("exception-on-valid-input", "concentric_hexagons raised %r" % (o["hex"],), c_desc)
             elif c["r"] >= 0:
                 ask(L("spec_hexagons", r=c["r"], start=c["start"], out=o["hex"]["ok"]),
                     spec_true("hexagons-wrong", "concentric_hexagons(%d, %r) is not exactly the chips within the "
                               "radius, each once, nearest first (%d points)" % (c["r"], c["start"], len(o["hex"]["ok"]))))
             nontriv = c["r"] >= 1
             ctx.tag("hex_r%s" % ("neg" if c["r"] < 0 else "0" if c["r"] == 0 else "1-3" if c["r"] <= 3 else "4+"))
-        ctx.case(c_desc, nontriv)
+        count(c_desc, nontriv)
 
     # graph-search distances, one search per (w, h, start)
     for (w, h, start, radius), lst in groups.items():
@@ -497,7 +624,7 @@ def eval_cases(ctx, cases):
         def chk(r, lst=lst, start=start, w=w, h=h):
             for (dest, c_desc, rep), dist in zip(lst, r):
                 if dist != rep:
-                    ctx.violation("length-not-graph-distance",
+                    V("length-not-graph-distance",
                                   "reported length %r from chip %r to chip %r (w=%r h=%r), graph distance is %s" % (
                                       rep, list(start), dest, w, h,
                                       dist if dist is not None else "larger than the searched radius"), c_desc)
@@ -701,6 +828,71 @@ def gen_hex_history(ctx, n, max_r):
     return cases
 
 
+def gen_call_history(ctx, n):
+    """histories of 3-10 calls by one caller on one small machine, over every function of the property,
+    rich in degenerate inputs (source == destination, null vectors, radius 0, 1 x 1 / 1 x N machines) and
+    in repetitions of an earlier call; after each call the caller mutates the returned object"""
+    rng = ctx.rng
+    sizes = [(1, 1), (1, 1), (1, 4), (5, 1), (2, 2), (2, 5), (3, 3), (4, 3), (5, 5), (8, 8)]
+    muts = ["none", "append", "extend", "extend_self", "insert", "pop", "clear", "reverse", "setitem",
+            "accumulate", "accumulate", "accumulate", "append", "extend"]
+    cases = []
+    for _ in range(n):
+        w, h = rng.choice(sizes)
+        pts = [(x, y) for x in range(w) for y in range(h)]
+        sticky = rng.choice(muts) if rng.random() < 0.5 else None     # one habit for the whole history
+        calls = []
+        for i in range(rng.randrange(3, 11)):
+            degenerate = rng.random() < 0.45
+            if calls and rng.random() < 0.25:
+                sub = dict(rng.choice(calls))                           # the same call again
+            else:
+                kind = rng.choice(["torus", "torus", "torus", "ldf", "ldf", "ldf", "mesh", "mesh", "minimise",
+                                   "links_between", "hexagons", "hex_history"])
+                a = rng.choice(pts)
+                b = a if degenerate else rng.choice(pts)
+                seed = rng.randrange(1 << 30)
+                if kind == "torus":
+                    sub = {"kind": "torus", "w": w, "h": h, "s": rep(rng, a, w, h), "d": rep(rng, b, w, h),
+                           "den": den_of(rng), "seed": seed}
+                elif kind == "mesh":
+                    if not degenerate:
+                        b = (a[0] + rng.randrange(-3, 4), a[1] + rng.randrange(-3, 4))
+                    sub = {"kind": "mesh", "s": rep(rng, a), "d": rep(rng, b), "den": den_of(rng), "seed": seed,
+                           "radius": 6}
+                elif kind == "ldf":
+                    if degenerate:
+                        v = rng.choice([[0, 0, 0], [0, 0, 0], [1, 1, 1], [-2, -2, -2]])
+                    else:
+                        v = [rng.choice([0, 0, 1, -1, 2, -3]) for _ in range(3)]
+                    sub = {"kind": "ldf", "v": v, "start": list(a), "w": rng.choice([w, w, None]),
+                           "h": rng.choice([h, h, None]), "den": den_of(rng), "seed": seed}
+                elif kind == "minimise":
+                    c0 = rng.randrange(-5, 6)
+                    sub = {"kind": "minimise", "v": [c0, c0, c0] if degenerate else
+                           [rng.randrange(-5, 6) for _ in range(3)]}
+                elif kind == "links_between":
+                    dc = [list(q) for q in pts if rng.random() < 0.1]
+                    dl = [[q[0], q[1], l] for q in pts for l in range(6) if rng.random() < 0.1]
+                    if not degenerate:
+                        l = rng.randrange(6)
+                        vv = [(1, 0), (1, 1), (0, 1), (-1, 0), (-1, -1), (0, -1)][l]
+                        b = ((a[0] + vv[0]) % w, (a[1] + vv[1]) % h)
+                    sub = {"kind": "links_between", "w": w, "h": h, "dead_chips": dc, "dead_links": dl,
+                           "a": list(a), "b": list(b)}
+                elif kind == "hexagons":
+                    sub = {"kind": "hexagons", "r": 0 if degenerate else rng.randrange(0, 5), "start": list(a)}
+                else:
+                    r = rng.randrange(0, 4)
+                    sub = {"kind": "hex_history", "fresh": False, "shape": "seq",
+                           "ops": [["new", 0, r, list(a)], ["next", 0, rng.choice(_cut_points(rng, r))],
+                                   [rng.choice(["close", "drop"]), 0]]}
+            sub["mut"] = sticky or rng.choice(muts)
+            calls.append(sub)
+        cases.append({"kind": "call_history", "calls": calls})
+    return cases
+
+
 def gen_malformed(ctx, n):
     rng = ctx.rng
     cases = []
@@ -743,6 +935,7 @@ def run(ctx):
         cases += gen_ldf(ctx, 500 * mult)
         cases += gen_malformed(ctx, 60)
         cases += gen_hex_history(ctx, 400 * mult, 7)
+        cases += gen_call_history(ctx, 500 * mult)
         cases += gen_float_edge(ctx, [(3, 3), (4, 4), (2, 5), (5, 2), (1, 4), (6, 3)])
     else:
         allsizes = [(w, h) for w in range(1, 17) for h in range(1, 17)]
@@ -756,6 +949,7 @@ def run(ctx):
         cases += gen_ldf(ctx, 20000)
         cases += gen_malformed(ctx, 500)
         cases += gen_hex_history(ctx, 6000, 12)
+        cases += gen_call_history(ctx, 8000)
         cases += gen_float_edge(ctx, [(w, h) for w in range(1, 7) for h in range(1, 7)])
         ctx.exhaustive = True
     for i in range(0, len(cases), 4000):
